@@ -63,6 +63,24 @@ def run(ctx):
                 origins(p, vcalls[0].args[0], visited=v2)
             common = {l for l in vis & v2 if p.varnames.get(l)}
             r1.check(bool(common), "stored==validated", "the stored value is the validated local (%s)" % sorted(p.local_name(l) for l in common), "the stored configuration is not the value that was validated")
+    # `validate() succeeded` has to mean that everything was looked at: every way to a non-error return of Config::validate passes the loop that validates
+    # the pools (round 6: the TLS block returned the result of loading the key - Ok - and skipped the general checks and every Pool::validate)
+    vb = ctx.body(VALIDATE, r1)
+    if vb:
+        pv = vb.calls("pgcat::config::Pool::validate")
+        vheads = [hd for hd in loop_headers(vb) if any(c.block in natural_loop(vb, hd) for c in pv)]
+        if not pv or not vheads:
+            r1.missing("loop calling Pool::validate in Config::validate")
+        else:
+            good = []
+            for blk, i, st in vb.assigns():
+                if st["lhs"]["l"] == 0 and not st["lhs"]["p"] and not (st["rv"]["k"] == "agg" and st["rv"].get("variant") == "Err"):
+                    good.append(blk)
+            good += [c.block for c in vb.calls() if c.dest["l"] == 0 and not c.dest["p"] and not re.search(r"from_residual$", c.name)]
+            wv = vb.uncrossed_path([0], good, blocks=vheads)
+            r1.check(bool(good) and wv is None, "validate-ok-only-after-the-pools", "Config::validate can only return a non-error result after the loop over the pools (Pool::validate for each)",
+                     "Config::validate can return something other than an error without having validated the pools: with that condition met (e.g. TLS configured) a semantically invalid file is accepted, stored and applied by a reload",
+                     "", wv and vb.describe_path(wv))
     callers = F.callers_of("pgcat::config::parse")
     r1.check(set(callers) <= {"bin:pgcat::main::{closure#0}", RELOAD} and RELOAD in callers, "parse-callers", "config::parse is called from main (startup) and reload_config only", "config::parse callers: %s" % callers)
 
